@@ -23,7 +23,7 @@ Inductive val :=
 | VRat (n d : Z)          (* *slip.Ratio, as big.Rat keeps it: lowest terms, d > 0 (d may be 1) *)
 | VInexact.               (* a float of some format: not modelled further *)
 
-Inductive cond := CDivZero | CArith | CType | CFault.   (* CFault: Go runtime panic (integer divide by zero) *)
+Inductive cond := CDivZero | CArith | CType | CFault.   (* CFault: Go runtime panic *)
 Inductive res :=
 | RVal (v : val)
 | RVals (q r : val)
@@ -133,22 +133,23 @@ Definition m_div (args : list val) : out :=
 (* ---- floor ceiling truncate round on integers ---- *)
 Inductive rounding := Floor | Ceiling | Truncate | Round.
 
-(* fixnum branch, verbatim *)
+(* a zero divisor of any exact type is caught before the branch on the representation
+   (checkDivisor, repo_fixes/C05-8): division-by-zero.  fixnum branch, verbatim *)
 Definition round_fix (m : rounding) (tn d : Z) : res :=
   match m with
-  | Truncate => if d =? 0 then RCond CFault else
+  | Truncate => if d =? 0 then RCond CDivZero else
       let q := gquot tn d in RVals (VFix q) (VFix (wrap64 (tn - wrap64 (q * d))))
-  | Floor => if d =? 0 then RCond CFault else
+  | Floor => if d =? 0 then RCond CDivZero else
       let q := gquot tn d in let r := wrap64 (tn - wrap64 (q * d)) in
       if 0 <? d then (if r <? 0 then RVals (VFix (wrap64 (q - 1))) (VFix (wrap64 (r + d))) else RVals (VFix q) (VFix r))
       else if r <? 0 then RVals (VFix (wrap64 (q + 1))) (VFix (wrap64 (r - d)))      (* sic: the ceiling adjustment *)
       else RVals (VFix q) (VFix r)
-  | Ceiling => if d =? 0 then RCond CFault else
+  | Ceiling => if d =? 0 then RCond CDivZero else
       let q := gquot tn d in let r := wrap64 (tn - wrap64 (q * d)) in
       if 0 <? d then (if 0 <? r then RVals (VFix (wrap64 (q + 1))) (VFix (wrap64 (r - d))) else RVals (VFix q) (VFix r))
       else if r <? 0 then RVals (VFix (wrap64 (q + 1))) (VFix (wrap64 (r - d)))
       else RVals (VFix q) (VFix r)
-  | Round => if d =? 0 then RCond CFault else
+  | Round => if d =? 0 then RCond CDivZero else
       let q0 := gquot tn d in let r0 := wrap64 (tn - wrap64 (q0 * d)) in
       if r0 =? 0 then RVals (VFix q0) (VFix r0)
       else
@@ -162,9 +163,9 @@ Definition round_fix (m : rounding) (tn d : Z) : res :=
         else if ds then RVals (VFix (wrap64 (- q))) (VFix r) else RVals (VFix q) (VFix r)
   end.
 
-(* bignum branch (big.Int.QuoRem truncates); a zero divisor makes math/big panic *)
+(* bignum branch (big.Int.QuoRem truncates) *)
 Definition round_big (m : rounding) (tn d : Z) : res :=
-  if d =? 0 then RCond CFault else
+  if d =? 0 then RCond CDivZero else
   let zq := Z.quot tn d in let zr := Z.rem tn d in
   match m with
   | Truncate => RVals (VBig zq) (VBig zr)
@@ -196,7 +197,7 @@ Definition rsub_mul (t : Z * Z) (k : Z) (d : Z * Z) : Z * Z :=      (* t - k*d *
   rnorm (fst t * snd d - k * fst d * snd t) (snd t * snd d).
 Definition rat_val (q : Z * Z) : val := VRat (fst q) (snd q).
 Definition round_rat (m : rounding) (t d : Z * Z) : res :=
-  if fst d =? 0 then RCond CFault else
+  if fst d =? 0 then RCond CDivZero else
   match m with
   | Round =>
       let zn := (Z.abs (fst t), snd t) in let zd := (Z.abs (fst d), snd d) in
@@ -268,9 +269,9 @@ Definition m_rem (args : list val) : out :=
   match args with
   | [n; d] =>
       match norm_kind n d with
-      | KFix => if as_int d =? 0 then {| o_res := RCond CFault; o_args := args |}
+      | KFix => if as_int d =? 0 then {| o_res := RCond CDivZero; o_args := args |}
                 else {| o_res := RVal (VFix (grem (as_int n) (as_int d))); o_args := args |}
-      | KBig => if as_int d =? 0 then {| o_res := RCond CFault; o_args := args |}
+      | KBig => if as_int d =? 0 then {| o_res := RCond CDivZero; o_args := args |}
                 else {| o_res := RVal (VBig (Z.rem (as_int n) (as_int d))); o_args := args |}
       | _ => {| o_res := RVal VInexact; o_args := args |}
       end
